@@ -46,7 +46,7 @@ class NormFourierDomainExpression(NormFourierDomain, Expr):
     def inverse_fourier(self, evaluate=True, **assumptions):
         """Attempt inverse Fourier transform."""
 
-        expr = self.subs(2 * pi * fsym * dt)
+        expr = self.subs(fsym * dt)
         result = inverse_fourier_transform(
             expr.sympy, fsym, tsym, evaluate=evaluate)
 
@@ -81,20 +81,19 @@ class NormFourierDomainExpression(NormFourierDomain, Expr):
         """Convert to angular Fourier domain."""
         from .symbols import omega
 
-        result = self.subs(omega / dt)
+        result = self.subs(omega * dt / (2 * pi))
         return result
 
     def norm_fourier(self, **assumptions):
         """Convert to normalized Fourier domain."""
-        from .symbols import F
-
-        result = self.subs(F / dt)
-        return result
+        return self
 
     def norm_angular_fourier(self, **assumptions):
         """Convert to normalized angular Fourier domain."""
+        from .symbols import Omega
 
-        return self
+        result = self.subs(Omega / (2 * pi))
+        return result
 
     def laplace(self, **assumptions):
         """Determine one-side Laplace transform with 0- as the lower limit."""
